@@ -681,7 +681,27 @@ pub fn run(ctx: Ctx) -> ! {
     let real_ints = diag.ints_checked;
 
     // ---- stand-alone transactions
+    // every four-element transaction also with its validity flag flipped (a phase-2 invalid
+    // transaction still declares the same inputs, outputs and collateral return)
+    let mut tx_artefacts = corpus::tx_files();
+    let mut flipped = 0usize;
     for a in corpus::tx_files() {
+        if let Ok(root) = mc_core::refcbor::parse_one(&a.bytes) {
+            if let Some(arr) = root.as_array() {
+                if arr.len() == 4 && matches!(a.bytes[arr[2].start], 0xf4 | 0xf5) {
+                    let mut v = a.clone();
+                    v.bytes[arr[2].start] ^= 0x01;
+                    v.name = format!("{}#validity-flag-flipped", a.name);
+                    tx_artefacts.push(v);
+                    flipped += 1;
+                }
+            }
+        }
+    }
+    if flipped == 0 {
+        mc_core::report::machinery_failure("C44: no stand-alone transaction with a validity flag in the corpus");
+    }
+    for a in tx_artefacts {
         let (shape, rt) = match corpus::ref_tx(&a.bytes) {
             Ok(x) => x,
             Err(e) => mc_core::report::machinery_failure(&format!("reference cannot view {}: {e}", a.name)),
